@@ -358,7 +358,7 @@ Section Leaf.
   Lemma idem_KBinary : idem_kind KBinary.
   Proof.
     intros a i v p hc H. cbn [clean_kind] in *. destruct v; try discriminate.
-    destruct (all_ascii s && b64_ok s) eqn:E; try discriminate. inv_ok H. cbn [encode]. rewrite E. reflexivity.
+    destruct (all_ascii s && (if vr_b64_strict vr then b64_strict s else b64_ok s)) eqn:E; try discriminate. inv_ok H. cbn [encode]. rewrite E. reflexivity.
   Qed.
 
   Lemma idem_KHex : idem_kind KHex.
